@@ -77,13 +77,24 @@ def model_A(r, delays):
     return count, ok, a, nframes
 
 
+followup = {}
+
+
 def exec_A(version, r, delays, via_refresh=False):
+    followup.clear()
     w = World()
     token, key = filler("c08/tok", 64), filler("c08/key", 32)
     tx = []
+    tx2 = []
+    phase = {"second": False}
 
     def script(req):
         if req.kind == "handshake":
+            for p in req.responses:
+                req.send(p)
+            return
+        if phase["second"]:
+            tx2.append(w.now())
             for p in req.responses:
                 req.send(p)
             return
@@ -112,7 +123,23 @@ def exec_A(version, r, delays, via_refresh=False):
         async def drive():
             if version == 3:
                 await lan.authenticate(token, key)
-            return await lan.send(CMD, retries=r), w.now()
+            try:
+                first = ("ok", (await lan.send(CMD, retries=r), w.now()))
+            except BaseException as e:  # noqa: BLE001
+                first = ("exc", e)
+            # let every late reply of the first exchange land, then a second exchange with a prompt device:
+            # it must transmit its request (exactly once) whatever is still queued from before
+            await asyncio.sleep(8)
+            phase["second"] = True
+            try:
+                second = ("ok", len(await lan.send(CMD, retries=r)))
+            except BaseException as e:  # noqa: BLE001
+                second = ("exc", type(e).__name__)
+            followup["second"] = second
+            followup["tx2"] = list(tx2)
+            if first[0] == "exc":
+                raise first[1]
+            return first[1]
     try:
         out = w.run(drive())
         return out, tx, w.now()
@@ -155,6 +182,12 @@ def run_A(st: Stats, version, r, part, nparts, via_refresh=False, alphabet=None)
                 prob = f"outcome {exc_class(out)} when no response arrived within the budget"
             elif "No response" not in str(out[1]):
                 prob = f"timeout message {out[1]!s}"
+        if prob is None and not via_refresh and followup:
+            sec, t2 = followup.get("second"), followup.get("tx2", [])
+            if len(t2) != 1:
+                prob = f"the exchange after this one transmitted its request {len(t2)} times (prompt device)"
+            elif sec[0] != "ok" or sec[1] < 1:
+                prob = f"the exchange after this one did not return the prompt reply: {sec}"
         if prob:
             st.violation(f"A v{version} r={r}: " + prob.split(",")[0].split(" [")[0].split(" at +")[0][:60], case,
                          {"transmissions": count, "success": ok, "first_arrival": a}, prob, f"tx={rel} outcome={out!s}"[:300])
